@@ -3,7 +3,7 @@ import DashLive.Driver.Util
 /-! Line-protocol channels of `Model/Periods.lean` (C12).
 
 * `vodperiods <defs>` → `<id>:<start>:<dur>;…|<mediaDuration>`   (`-` for an empty list)
-* `liveperiods <defs> <E_us> <F_us>` → `ok <nl> <id>:<start>:<dur>;…` | `zerodiv` | `diverges`
+* `liveperiods <defs> <E_us> <F_us>` → `ok <nl> <id>:<start>:<dur>;…` | `zerodiv` | `toomany` | `diverges`
   (`nl` = the loop count, evaluated the way CPython evaluates
   `int(F.total_seconds() // D.total_seconds())`: the exact floor of the quotient of the two
   doubles `F/10⁶` and `D/10⁶` – e.g. `0.3 // 0.1 = 2` – and fed to `livePeriodsFrom`)
@@ -67,9 +67,13 @@ def liveperiods : List String → Option String
     let ps := presented ps
     if totalDuration ps = 0 then some "zerodiv" else
     let nl := floatLoopCount F (totalDuration ps)
-    match livePeriodsFrom ps E F nl with
-    | some l => some (s!"ok {nl} " ++ showPeriods l)
-    | none => some "diverges"
+    -- `int((elapsedTime - start).total_seconds() // duration.total_seconds())`, start = D·nl ≤ F ≤ E
+    let cnt := floatLoopCount (E - totalDuration ps * nl) (totalDuration ps)
+    match livePeriodsGuarded ps E F nl cnt with
+    | .ok l => some (s!"ok {nl} " ++ showPeriods l)
+    | .zeroDivision => some "zerodiv"
+    | .tooMany => some "toomany"
+    | .diverges => some "diverges"
   | _ => none
 
 /-- `int(math.floor(td.total_seconds() * timescale))` for a non-negative `td` of `us` µs -/
